@@ -123,7 +123,20 @@ class StateGuard(object):
         snap["sys.getrecursionlimit"] = sys.getrecursionlimit()
         for cname in ("DefaultContext", "BasicContext", "ExtendedContext"):
             snap["decimal." + cname] = repr(ctx_tuple(getattr(decimal, cname)))
+        # further process-wide settings a calculator library has no business touching
+        import logging
+        import threading
+
+        snap["logging.root"] = repr((logging.root.level, [type(h).__name__ for h in logging.root.handlers], logging.root.disabled,
+                                     logging.root.manager.disable))
+        snap["sys.excepthook"] = repr((id(sys.excepthook), id(sys.displayhook), id(getattr(threading, "excepthook", None))))
+        snap["sys.stdout/stderr identity"] = repr((id(sys.stdout), id(sys.stderr), id(sys.stdin)))
+        snap["sys.settings"] = repr((sys.getswitchinterval(), sys.flags.dev_mode, sys.dont_write_bytecode))
         return snap
+
+    def rebase_streams(self):
+        """The simulated stdio has just been installed: that identity is the one to preserve."""
+        self.base["sys.stdout/stderr identity"] = repr((id(sys.stdout), id(sys.stderr), id(sys.stdin)))
 
     def take_caches(self):
         out = {}
@@ -329,9 +342,10 @@ def execute_in_child(actors, granularity, decider, refs, repo_prefix, guard, max
         return run
 
     with runner23._Installed(term):
+        guard.rebase_streams()
         ok = s.run([actor_fn(i) for i in range(n)])
     # end-of-run invariants (main thread: its own context must be untouched too)
-    final_bad = guard.diff()
+    final_bad = [x for x in guard.diff() if x != "sys.stdout/stderr identity"]
     for name in final_bad:
         inv.append([-1, -1, "state:" + name, "%s differs from its value right after import (end of run)" % name])
     for name in guard.cache_changes():
